@@ -1,7 +1,136 @@
 import Driver.Common
-open Drv
+import KatdalModel.Model.Threads
+open Drv Threads
 
-/-- stub driver for C20: replaced when the property's model lands -/
-def step (_line : String) : String := "bad-op"
+/-!
+  Trace-refinement driver for C20.  Each request carries the observations the controlled scheduler
+  made of the real Python objects, one per scheduling step `(thread, observation after the step)`;
+  the driver replays them against the transition system: every observed transition must be the
+  result of at most `fuel` steps of that same thread in the model (0 steps = stutter).
+
+    lazy   <locked> <clears> <n> <fuel> <t:owner:v:i:pcs;…>
+    rcache <reentrant> <n> <fuel> <kinds> <progs> <keys> <t:owner:depth:bits:stk|stk;…>
+    pool   <locked> <n> <fuel> <plans> <t:owner:free:next:pcs:helds;…>
+
+  reply: `ok <model steps>` | `fail <event index> <what the model state looks like>` | `bad-op`
+-/
+
+def bit? (s : String) : Option Bool := if s = "1" then some true else if s = "0" then some false else none
+def optNat? (s : String) : Option (Option Nat) := if s = "_" then some none else s.toNat?.map some
+def natList? (s : String) : Option (List Nat) := if s = "-" || s = "" then some [] else (s.splitOn ",").mapM (·.toNat?)
+def showOptNat : Option Nat → String | none => "_" | some v => toString v
+def showNats (l : List Nat) : String := if l.isEmpty then "-" else ",".intercalate (l.map toString)
+def showBits (l : List Bool) : String := String.mk (l.map fun b => if b then '1' else '0')
+
+/-- generic replay of `(thread, observation)` events -/
+def replay {σ ο : Type} (adv : Tid → ο → σ → Option (Nat × σ)) (showS : σ → String) :
+    List (Tid × ο) → σ → Nat → Nat → String
+  | [], _, _, steps => s!"ok {steps}"
+  | (t, o) :: rest, s, idx, steps =>
+    match adv t o s with
+    | some (k, s') => replay adv showS rest s' (idx + 1) (steps + k)
+    | none => s!"fail {idx} t={t} model={showS s}"
+
+namespace LazyD
+open Threads.Lazy
+
+def pcChar : PC → Char
+  | .idle => 'i' | .acquiring => 'a' | .check => 'c' | .compute => 'm' | .assign => 's'
+  | .clearInput => 'x' | .release => 'r' | .done => 'd'
+def pcOf? : Char → Option PC
+  | 'i' => some .idle | 'a' => some .acquiring | 'c' => some .check | 'm' => some .compute
+  | 's' => some .assign | 'x' => some .clearInput | 'r' => some .release | 'd' => some .done | _ => none
+
+def showObs (o : Obs) : String :=
+  s!"{showOptNat o.owner}:{if o.valueSet then 1 else 0}:{if o.inputSet then 1 else 0}:{String.mk (o.pcs.map pcChar)}"
+
+def parseEv (s : String) : Option (Tid × Obs) :=
+  match s.splitOn ":" with
+  | [t, ow, v, i, pcs] => do
+    let t ← t.toNat?; let ow ← optNat? ow; let v ← bit? v; let i ← bit? i
+    let pcs ← pcs.toList.mapM pcOf?
+    pure (t, ⟨ow, v, i, pcs⟩)
+  | _ => none
+
+def handle (locked clears n fuel evs : String) : String :=
+  match bit? locked, bit? clears, n.toNat?, fuel.toNat?, (evs.splitOn ";").mapM parseEv with
+  | some l, some cl, some n, some fuel, some evs =>
+    let c : Cfg := ⟨l, cl, fun i => i + 1, 0⟩
+    replay (fun t o s => advance c n t o fuel s) (fun s => showObs (obs n s)) evs (init c) 0 0
+  | _, _, _, _, _ => "bad-op"
+end LazyD
+
+namespace RCacheD
+open Threads.RCache
+
+def parseKind (s : String) : Option Kind :=
+  if s = "r" then some .raw else
+  match s.splitOn ":" with
+  | ["v", ds] => (natList? ds).map .virt
+  | _ => none
+
+def showStacks (l : List (List Nat)) : String := "|".intercalate (l.map showNats)
+def showObs (o : Obs) : String :=
+  s!"{showOptNat o.owner}:{o.depth}:{showBits o.cached}:{showStacks o.stacks}"
+
+def parseEv (s : String) : Option (Tid × Obs) :=
+  match s.splitOn ":" with
+  | [t, ow, d, bits, stks] => do
+    let t ← t.toNat?; let ow ← optNat? ow; let d ← d.toNat?
+    let bits ← bits.toList.mapM fun ch => bit? (String.singleton ch)
+    let stks ← (stks.splitOn "|").mapM natList?
+    pure (t, ⟨ow, d, bits, stks⟩)
+  | _ => none
+
+def handle (re n fuel kinds progs keys evs : String) : String :=
+  match bit? re, n.toNat?, fuel.toNat?, (kinds.splitOn ";").mapM parseKind, (progs.splitOn "|").mapM natList?,
+        natList? keys, (evs.splitOn ";").mapM parseEv with
+  | some re, some n, some fuel, some kinds, some progs, some keys, some evs =>
+    let c : Cfg := ⟨re, fun k => kinds.getD k .raw, fun k => 10 * k + 1, fun k vs => 1000 * k + vs.foldl (· + ·) 0⟩
+    let s0 := init c (fun t => progs.getD t [])
+    replay (fun t o s => advance c n keys t o fuel s) (fun s => showObs (obs n keys s)) evs s0 0 0
+  | _, _, _, _, _, _, _ => "bad-op"
+end RCacheD
+
+namespace PoolD
+open Threads.Pool
+
+def pcChar : PC → Char
+  | .idle => 'i' | .getAcq => 'A' | .getCheck => 'C' | .getNew => 'N' | .getPop => 'P' | .getRel => 'R'
+  | .using => 'u' | .putAcq => 'a' | .putAppend => 'p' | .putRel => 'r' | .done => 'd'
+def pcOf? : Char → Option PC
+  | 'i' => some .idle | 'A' => some .getAcq | 'C' => some .getCheck | 'N' => some .getNew | 'P' => some .getPop
+  | 'R' => some .getRel | 'u' => some .using | 'a' => some .putAcq | 'p' => some .putAppend | 'r' => some .putRel
+  | 'd' => some .done | _ => none
+
+def showObs (o : Obs) : String :=
+  s!"{showOptNat o.owner}:{showNats o.free}:{o.next}:{String.mk (o.pcs.map pcChar)}:{",".intercalate (o.helds.map showOptNat)}"
+
+def parseEv (s : String) : Option (Tid × Obs) :=
+  match s.splitOn ":" with
+  | [t, ow, free, nx, pcs, helds] => do
+    let t ← t.toNat?; let ow ← optNat? ow; let free ← natList? free; let nx ← nx.toNat?
+    let pcs ← pcs.toList.mapM pcOf?
+    let helds ← (helds.splitOn ",").mapM optNat?
+    pure (t, ⟨ow, free, nx, pcs, helds⟩)
+  | _ => none
+
+def parsePlan (s : String) : Option (List Bool) :=
+  if s = "-" then some [] else s.toList.mapM fun ch => bit? (String.singleton ch)
+
+def handle (locked n fuel plans evs : String) : String :=
+  match bit? locked, n.toNat?, fuel.toNat?, (plans.splitOn "|").mapM parsePlan, (evs.splitOn ";").mapM parseEv with
+  | some l, some n, some fuel, some plans, some evs =>
+    let c : Cfg := ⟨l⟩
+    replay (fun t o s => advance c n t o fuel s) (fun s => showObs (obs n s)) evs (init (fun t => plans.getD t [])) 0 0
+  | _, _, _, _, _ => "bad-op"
+end PoolD
+
+def step (line : String) : String :=
+  match line.splitOn " " with
+  | ["lazy", l, c, n, fuel, evs] => LazyD.handle l c n fuel evs
+  | ["rcache", re, n, fuel, kinds, progs, keys, evs] => RCacheD.handle re n fuel kinds progs keys evs
+  | ["pool", l, n, fuel, plans, evs] => PoolD.handle l n fuel plans evs
+  | _ => "bad-op"
 
 def main : IO Unit := Drv.loop step
